@@ -1,8 +1,9 @@
 """C09 - a crash at any storage write leaves a node that restarts into a consistent chain.
 
 1. TLC explores spec/ChainStore.tla through MC_ChainStore (block insertion of every kind, ResetTo, fork
-   switch, insertion followed by a sibling branch; every durable step a crash point; start-up = InitChain,
-   InitState, EnsureIntegrity with ITS write sequence; up to 2 crashes per behaviour) twice:
+   switch, insertion followed by a sibling branch, fast sync ending in the atomic prefix switch; every
+   durable step a crash point; start-up = InitChain, InitState, EnsureIntegrity with ITS write sequence;
+   up to 2 crashes per behaviour) twice:
      - constants "code as is": the clauses BootOk / HeadMatchesState / HeadInWindow hold everywhere and the
        other clauses are broken only in the behaviours the two orderings named in the constants explain
        (ExplainedAsIs); every finished behaviour is exported as a crash schedule with the clauses the
@@ -32,9 +33,34 @@ LEVEL = "fault_enumeration"
 # clauses a lost canonical-hash write explains (insertHeader writes the head first)
 CANON_CLAUSES = {"HeadIndexed", "IndexMatchesReference", "ContinuationAccepted", "ReachesReference", "BootOk"}
 KEY_CANON = "C09:canonical-hash-lost-after-head-write"
-# clauses an orphan tree version explains (tree committed, head not moved, start-up keeps the version)
-ORPHAN_LOST = {"SPrune", "ICommit", "IPrune", "Header", "Head"}
+# an orphan tree version explains a rejected sibling block: start-up kept a saved tree version above the head and the
+# rejected block sits at such a height with another root
 KEY_ORPHAN = "C09:orphan-tree-version-rejects-sibling-block"
+
+
+def orphan_conflict(run, line):
+    """Was the step rejected at trace line `line` an Add of a block at a height where the last start-up left a saved
+    tree version (above the head it restarted at) with a different root - or the Add right after such a block (with
+    pruning pending, CommitTree hides the error of the conflicting commit and the NEXT block fails)?"""
+    rows = run["rows"]
+    i = line - run["start"] - 2
+    if i < 0 or i >= len(rows) or rows[i]["ev"] != "Apply" or rows[i]["what"] != "Add":
+        return False
+    j = i
+    while j >= 0 and rows[j]["ev"] != "Restart":
+        j -= 1
+    if j < 0 or not rows[j]["ok"]:
+        return False
+    o = rows[j]["obs"]
+    for r in rows[j:i + 1]:
+        if r["ev"] != "Apply" or r["what"] != "Add" or r["b"]["h"] < rows[i]["b"]["h"] - 1:
+            continue
+        b = r["b"]
+        if any(v["h"] == b["h"] and v["h"] > o["head"]["h"] and v["r"] != b["root"] for v in o["svr"]):
+            return True
+        if any(v["h"] == b["h"] and v["h"] > o["head"]["h"] and v["r"] != b["idr"] for v in o["ivr"]):
+            return True
+    return False
 
 
 def case_class(c):
@@ -78,23 +104,23 @@ def validate_parts(ctx, parts):
 
 
 def attribute(run, clauses):
-    """Map the clauses TLC found broken in one run to finding keys."""
+    """Map the clauses TLC found broken in one run ({clause: trace line}) to finding keys."""
     res = {}
     reset = run["reset"]
-    lost = [(r["ph"], r.get("lost", "")) for r in run["rows"] if r["ev"] == "Crash"]
-    lost_kinds = [k for _, k in lost]
+    crashes = [(run["start"] + 2 + i, r["ph"], r.get("lost", "")) for i, r in enumerate(run["rows"]) if r["ev"] == "Crash"]   # 1-based lines
+    lost_kinds = [k for _, _, k in crashes]
     left = set(clauses)
     if "HeadIndexed" in left and "Canon" in lost_kinds:
         hit = left & CANON_CLAUSES
         res[KEY_CANON] = hit
         left -= hit
-    if reset["sc"]["op"] == "Alt" and any(ph == "op" and k in ORPHAN_LOST for ph, k in lost):
+    if "ContinuationAccepted" in left and orphan_conflict(run, clauses["ContinuationAccepted"]):
         hit = left & {"ContinuationAccepted", "ReachesReference"}
-        if hit:
-            res[KEY_ORPHAN] = hit
-            left -= hit
+        res[KEY_ORPHAN] = hit
+        left -= hit
     for c in sorted(left):
-        res["C09:%s:%s:lost-%s" % (c, reset["sc"]["op"], "+".join(lost_kinds) or "none")] = {c}
+        before = [k for line, _, k in crashes if line <= clauses[c]]
+        res["C09:%s:%s:lost-%s" % (c, reset["sc"]["op"], before[-1] if before else "none")] = {c}
     return res
 
 
@@ -107,11 +133,13 @@ def describe(run, key, clauses):
         ev = r["ev"]
         if ev == "W":
             writes.append(r["k"])
+        elif ev == "OpEnd":
+            s += "; op writes %s, completed%s" % (writes, "" if r["ok"] else " WITH ERROR " + r["err"])
+            writes = []
+        elif ev == "Crash" and r["clean"]:
+            s += ", clean stop"
         elif ev == "Crash":
-            if r["clean"]:
-                s += "; %s writes %s, clean stop" % (r["ph"], writes)
-            else:
-                s += "; %s writes %s then the process dies inside the next write (%s)" % (r["ph"], writes, r.get("lost", "?"))
+            s += "; %s writes %s then the process dies inside the next write (%s)" % (r["ph"], writes, r.get("lost", "?"))
             writes = []
         elif ev == "Restart":
             if r["ok"]:
@@ -264,10 +292,10 @@ def main(ctx):
         if not ok and not info.get("broken"):
             raise vlib.CheckError("trace %s rejected without a broken clause: %s" % (os.path.basename(path), info))
         starts = [run["start"] for run in runs]
-        per_run = collections.defaultdict(set)
+        per_run = collections.defaultdict(dict)
         for line, clause in info.get("broken", []):
             idx = max(i for i, s in enumerate(starts) if s < line)        # TLC lines are 1-based
-            per_run[idx].add(clause)
+            per_run[idx].setdefault(clause, line)
         for idx, run in enumerate(runs):
             totals["runs"] += 1
             totals["restarts"] += sum(1 for x in run["rows"] if x["ev"] == "Restart")
@@ -279,30 +307,17 @@ def main(ctx):
             for x in run["rows"]:
                 if x["ev"] == "Crash":
                     lost_seen[(run["reset"]["sc"]["op"], x["ph"], x.get("lost", ""))] += 1
-            clauses = per_run.get(idx, set())
+            clauses = per_run.get(idx, {})
             if run["reset"].get("src") == "tlc" and not any(x["ev"] == "Final" and x.get("unresolved") for x in run["rows"]):
-                if set(run["reset"]["predicted"]) != clauses and len(pred_mismatch) < 10:
+                if set(run["reset"]["predicted"]) != set(clauses) and len(pred_mismatch) < 10:
                     pred_mismatch.append({"scn": run["reset"]["scn"], "crashes": run["reset"]["crashes"],
                                           "model": sorted(run["reset"]["predicted"]), "real": sorted(clauses)})
-                if set(run["reset"]["predicted"]) != clauses:
+                if set(run["reset"]["predicted"]) != set(clauses):
                     totals["prediction_mismatch"] += 1
             if clauses:
                 broken_runs[(path, idx)] = clauses
     ctx.log("trace validation: %d lines / %d runs in %d parts, %d runs with broken clauses, drift %d, %.0fs"
             % (lines, totals["runs"], len(parts), len(broken_runs), drift, time.time() - t0))
-
-    # dead-driver / vacuity checks
-    if totals["runs"] < len(cases):
-        raise vlib.CheckError("driver executed %d runs for %d schedules" % (totals["runs"], len(cases)))
-    if totals["recovery_writes"] == 0 or totals["clean_restarts"] == 0 or totals["double"] == 0:
-        raise vlib.CheckError("vacuous run: recovery writes %d, clean restarts %d, double crashes %d"
-                              % (totals["recovery_writes"], totals["clean_restarts"], totals["double"]))
-    missing = [k for k in classes if k[2] != "clean" and lost_seen.get(k, 0) == 0]
-    if len(missing) > len(classes) // 10:
-        raise vlib.CheckError("crash classes of the model never reached on the real node (dead driver): %s" % missing[:8])
-    if totals["unresolved"] > totals["runs"] // 10:
-        raise vlib.CheckError("%d of %d schedules could not be resolved on the real write sequence (model and code out of step)"
-                              % (totals["unresolved"], totals["runs"]))
 
     # verdicts
     by_key = {}
@@ -325,7 +340,22 @@ def main(ctx):
         vlib.report_violation(ctx, key, what, replay_src=ex,
                               payload={"case": {"sc": ent["run"]["reset"]["sc"], "crashes": ent["run"]["reset"]["crashes"]}})
 
-    selftest(ctx, runs_by_part, broken_runs)
+    # dead-driver / vacuity checks (a verdict from the real code goes first: code that deviates also starves crash classes)
+    if not ctx.violations:
+        if totals["runs"] < len(cases):
+            raise vlib.CheckError("driver executed %d runs for %d schedules" % (totals["runs"], len(cases)))
+        if totals["recovery_writes"] == 0 or totals["clean_restarts"] == 0 or totals["double"] == 0:
+            raise vlib.CheckError("vacuous run: recovery writes %d, clean restarts %d, double crashes %d"
+                                  % (totals["recovery_writes"], totals["clean_restarts"], totals["double"]))
+        missing = [k for k in classes if k[2] != "clean" and lost_seen.get(k, 0) == 0]
+        if len(missing) > len(classes) // 10:
+            raise vlib.CheckError("crash classes of the model never reached on the real node (dead driver): %s" % missing[:8])
+        if totals["unresolved"] > totals["runs"] // 10:
+            raise vlib.CheckError("%d of %d schedules could not be resolved on the real write sequence (model and code out of step)"
+                                  % (totals["unresolved"], totals["runs"]))
+
+    if not ctx.violations:
+        selftest(ctx, runs_by_part, broken_runs)
 
     some = exports[len(exports) // 3]
     cov = {
@@ -354,6 +384,7 @@ def main(ctx):
     return vlib.finish(ctx, LEVEL, cov, assumptions=[
         "MemDB semantics: a single put/delete or a batch is atomic, writes reach the store in program order (no torn writes, no fsync reordering); goleveldb-specific recovery is out of scope",
         "the in-memory ipfs store is a second durable store written before the header (shared between incarnations)",
-        "the fast-sync switch (AtomicSwitchToPreliminary) is checked by the separate scenario family when present in the trace (see evidence), not by the bounded model",
+        "fast sync: the call sequence of protocol/fast.go (preConsuming / applyDeferredBlocks / postConsuming) is transcribed in the driver and issued on the real IdentityStateDB / StateDB / Blockchain methods (the fastSync type is unexported and bound to the gossip handler and an ipfs download); certificates and the bloom-filtered index writes of fast sync are left out",
+        "copying / deleting a whole tree database (many single puts / deletes) is one step of the specification; the driver crashes inside such runs too",
         "proposer-side writes (apply-tx log of filterTxs) and background writers (offline detector, indexer events) are outside the operations under test",
     ])
